@@ -93,6 +93,25 @@ def run(rep, tier, seed):
         for _ in range(2):
             pid = rng.choice(p["kb"]["preds"])
             p["ops"].insert(rng.randint(0, len(p["ops"])), ("get", pid["id"], [rng.randrange(5) for _ in range(pid["arity"])]))
+    # ... and quantified programs (partially quantified formulae under AXIOM / CLOSED, used as sub-formulae too) with
+    # reset_bounds() in between: their per-group rows are never asserted and must read inside the default at all times
+    qprogs = [streams.gen_fol_program(seed + 19, k, quant=True, parents=(1.0 if k % 2 else True)) for k in range(m // 2)]
+    for p in qprogs:
+        rng = random.Random(sub_seed(seed, "c14r", len(p["ops"]), len(p["facts"])))
+        for n_ in p["kb"]["nodes"]:
+            if n_["kind"] in ("forall", "exists") and rng.random() < 0.5:
+                n_["world"] = rng.choice(["axiom", "closed"])
+        p["ops"] = list(p["ops"]) + [("passup",), ("resetb",), ("passup",), ("passdown",)]
+        if len(p["ops"]) > 5:
+            p["ops"].insert(rng.randint(1, len(p["ops"]) - 4), ("resetb",))
+    qrecs, qdis = streams.run_fol_stream(rep, "quant", qprogs, None)
+    for r in qrecs:
+        if "crash" in r:
+            continue
+        rep.count_case(streams.canon(r["prog"]), True)
+        bad = judge_fol(r)
+        if bad:
+            rep.violation("world-default", bad, {"program": streams.ser(r["prog"]), "failure": bad, "protocol": r["lines"], "impl": r["impl"]})
     frecs, fdis = streams.run_fol_stream(rep, "fol-qf", fprogs, None)
     created = 0
     for r in frecs:
